@@ -73,9 +73,16 @@ impl Fam {
         }
     }
     pub fn find(self, name: &str) -> u16 {
-        (0..self.n_jets() as u16)
-            .find(|i| self.jet(*i).to_string() == name)
-            .unwrap_or_else(|| panic!("no jet {name}"))
+        use std::collections::HashMap;
+        use std::sync::OnceLock;
+        static CORE: OnceLock<HashMap<String, u16>> = OnceLock::new();
+        static ELEMENTS: OnceLock<HashMap<String, u16>> = OnceLock::new();
+        let cell = match self {
+            Fam::Core => &CORE,
+            Fam::Elements => &ELEMENTS,
+        };
+        let map = cell.get_or_init(|| (0..self.n_jets() as u16).map(|i| (self.jet(i).to_string(), i)).collect());
+        *map.get(name).unwrap_or_else(|| panic!("no jet {name}"))
     }
     pub fn name(self) -> &'static str {
         match self {
